@@ -10,6 +10,7 @@ VERIF = Path(__file__).resolve().parent.parent
 sys.path.insert(0, str(VERIF))
 
 TECH = {
+    "C02": "affine abstract interpretation of the cut end to end (owner order, keep flags, trim arithmetic) for 2 and 3 owners x both strands: pieces tile the contig; structural order/orientation rules",
     "C01": "who-may-call + must-pass-through (post-dominance over enumerated paths) + typestate on row removal + backward-slice check of the cut QC",
     "C03": "resolved-callee dispatch facts, sibling normal-form comparison of the chunkers, affine ghost-counter invariant for line wrapping, CLI pairing by def-use",
     "C04": "def-use provenance of the stripped suffix, regex-AST class check, affine tiling invariant over the run list, codec column-order agreement",
@@ -38,7 +39,6 @@ LEVEL_TEXT = {
 }
 
 NOT_APPLICABLE = {
-    "C02": "quantifies over runtime geometry against a numeric tolerance (3 x error length); no sound static argument in reach bounds the joint behaviour of the overhang heuristics, and pinning their constants would be a frozen-text proxy (its exact-cut clause is decided under C18.R2)",
     "C08": "identity of output and input for null maps under texel rounding is a statement about runtime lengths versus texel size; every structural ingredient is already a rule of C01/C07/C12/C18 and no further clause is a necessary condition visible in the code's shape",
 }
 
